@@ -317,8 +317,68 @@ pub fn commb_payload(rng: &mut Rng, ac13: u16) -> [u8; 7] {
     }
 }
 
+/// Whole-frame bit patterns behind a given DF number: zero / one fills of the whole frame, of its first or second
+/// half, of everything but the parity; single set bits. (A serializer or reader that special-cases "empty" halves is
+/// invisible to field-wise generators whose parity bytes are always busy.)
+pub fn patterned(rng: &mut Rng, df: u8, which: u64) -> Vec<u8> {
+    let n = if df & 0x10 != 0 { 14 } else { 7 };
+    let mut f = match which % 8 {
+        0 => vec![0u8; n],
+        1 => vec![0xffu8; n],
+        2 => {
+            // random first half, zero second half
+            let mut v = rng.bytes(n);
+            for x in v[n / 2..].iter_mut() {
+                *x = 0;
+            }
+            v
+        }
+        3 => {
+            let mut v = rng.bytes(n);
+            for x in v[1..n / 2].iter_mut() {
+                *x = 0;
+            }
+            v
+        }
+        4 => {
+            // everything zero but the last three bytes
+            let mut v = vec![0u8; n];
+            let t = rng.bytes(3);
+            v[n - 3..].copy_from_slice(&t);
+            v
+        }
+        5 => {
+            // random payload, zero parity / address field
+            let mut v = rng.bytes(n);
+            for x in v[n - 3..].iter_mut() {
+                *x = 0;
+            }
+            v
+        }
+        6 => {
+            let mut v = vec![0u8; n];
+            let p = rng.below(8 * n as u64) as usize;
+            v[p / 8] |= 1 << (7 - p % 8);
+            v
+        }
+        _ => {
+            let mut v = vec![0xffu8; n];
+            for x in v[n / 2..].iter_mut() {
+                *x = 0;
+            }
+            v
+        }
+    };
+    f[0] = (df << 3) | (f[0] & 7);
+    f
+}
+
 /// One structure-aware frame. DF17 is sealed (zero syndrome) so that it is accepted.
 pub fn structured(rng: &mut Rng, df: u8) -> Vec<u8> {
+    if rng.chance(0.03) {
+        let w = rng.next();
+        return patterned(rng, df, w);
+    }
     match df {
         17 | 18 => {
             let tc = rng.below(32) as u8;
